@@ -51,6 +51,10 @@ func verifHarness_exportOrder() {
 		verifAssert(d.OutputInstance < d.InputInstance, "after Compile every dependency's output instance is solved before its input instance")
 		verifAssert(d.OutputWire == 2, "the dependency still names the gate wire")
 	}
+	for k := 1; k < nbDeps; k++ {
+		// what Chunks and the solving hint's dependency walk (binary search + head pointer) rely on
+		verifAssert(info.Circuit[0].Dependencies[k-1].InputInstance < info.Circuit[0].Dependencies[k].InputInstance, "after Compile a wire's dependencies are listed by increasing input instance")
+	}
 	for k := 0; k < n; k++ {
 		verifAssert(p.InstancesPermutation[p.SortedInstances[k]] == k, "InstancesPermutation inverts SortedInstances")
 	}
